@@ -11,7 +11,9 @@
 
 #include <etl/vector.hpp>
 
+#include <cstdint>
 #include <deque>
+#include <limits>
 
 namespace c06 {
 namespace {
@@ -307,6 +309,180 @@ auto a_iota(Case const& c) -> std::string
     return nverdict(e, s);
 }
 
+// ------------------------------------------------------------------ element type != accumulator / destination type
+// [accumulate] [partial.sum] [adjacent.difference] ... fix the type every intermediate value has (the init type, resp. the
+// input iterator's value type).  That is only observable when the element type and the init / destination type differ
+// in width or signedness and the values leave the narrower type's range, so: narrow elements whose running sums wrap,
+// written into / folded into a wider type (and the other way round), compared with std:: on the same types.
+template <typename T>
+auto tnum(T v) -> std::string
+{
+    if constexpr (std::is_floating_point_v<T>) {
+        char buf[48];
+        std::snprintf(buf, sizeof buf, "%.17g", static_cast<double>(v));
+        return buf;
+    } else if constexpr (std::is_signed_v<T>) {
+        return std::to_string(static_cast<long long>(v));
+    } else {
+        return std::to_string(static_cast<unsigned long long>(v));
+    }
+}
+template <typename T>
+auto tvec(T const* p, int n) -> std::string
+{
+    std::string s = "[";
+    for (int i = 0; i < n; ++i) { s += (i != 0 ? " " : "") + tnum(p[i]); }
+    return s + "]";
+}
+template <typename In>
+auto wrap_value(int key) -> In
+{
+    int k = key & 3;
+    if constexpr (std::is_same_v<In, std::uint8_t>) {
+        constexpr std::uint8_t t[] = {200, 100, 50, 255};
+        return t[k];
+    } else if constexpr (std::is_same_v<In, std::int8_t>) {
+        constexpr std::int8_t t[] = {100, -100, 60, -128};
+        return t[k];
+    } else if constexpr (std::is_same_v<In, std::int16_t>) {
+        constexpr std::int16_t t[] = {30000, -30000, 10000, -32000}; // (two products must be addable in int)
+        return t[k];
+    } else if constexpr (std::is_same_v<In, std::uint16_t>) {
+        constexpr std::uint16_t t[] = {30000, 25000, 1000, 32000}; // products are formed in (signed) int and std::transform_reduce adds two of them: keep products <= 2^30
+        return t[k];
+    } else if constexpr (std::is_same_v<In, std::uint32_t>) {
+        constexpr std::uint32_t t[] = {4000000000U, 3000000000U, 1U, 0xFFFFFFFFU};
+        return t[k];
+    } else {
+        constexpr float t[] = {16777216.0F, 1.0F, 1.0F, 0.5F};
+        return t[k];
+    }
+}
+template <typename In>
+auto iota_start() -> In
+{
+    return static_cast<In>(std::numeric_limits<In>::max() - In{1}); // the counter wraps after two steps
+}
+// op(accumulator, element) / op(current, previous): evaluated in the promoted / wider type, non-commutative
+template <typename W>
+struct WFold {
+    template <typename A, typename B>
+    auto operator()(A a, B b) const -> W
+    {
+        if constexpr (std::is_floating_point_v<W>) {
+            return static_cast<W>(a) + static_cast<W>(b); // float -> double: the sum is exact in double, rounded in float
+        } else if constexpr (std::is_signed_v<W>) {
+            return static_cast<W>((static_cast<long long>(a) * 3 + static_cast<long long>(b)) % 1000003);
+        } else {
+            return static_cast<W>(static_cast<W>(a) * 3U + static_cast<W>(b));
+        }
+    }
+};
+template <typename K, typename In, typename Wide>
+auto typed_numeric(Case const& c) -> std::string
+{
+    int const L = len(c);
+    std::vector<In> a;
+    std::vector<In> b;
+    for (int i = 0; i < L; ++i) {
+        a.push_back(wrap_value<In>(c.a[static_cast<std::size_t>(i)]));
+        b.push_back(wrap_value<In>(c.a[static_cast<std::size_t>((i + 1) % L)] + 1));
+    }
+    constexpr bool flt = std::is_floating_point_v<In>;
+    // std::reduce / transform_reduce may group element with element first: op(In, In) is then evaluated in the promoted
+    // type of In.  With a wider init the result is only grouping-independent when that promoted type cannot wrap (In narrower than int)
+    constexpr bool wide_reduce = sizeof(In) < sizeof(int);
+    using Op           = WFold<Wide>;
+    std::string s;
+    std::string e;
+    auto const sz = static_cast<std::size_t>(L);
+    // ---------------- std
+    {
+        std::vector<Wide> w1(sz, Wide{5});
+        std::vector<Wide> w2(sz, Wide{5});
+        std::vector<Wide> w3(sz, Wide{5});
+        std::vector<Wide> w4(sz, Wide{5});
+        std::vector<In> n1(sz, In{5});
+        std::vector<In> io(sz, In{5});
+        std::vector<Wide> iw(sz, Wide{5});
+        auto r1 = std::partial_sum(a.begin(), a.end(), w1.begin()) - w1.begin();
+        auto r2 = std::partial_sum(a.begin(), a.end(), w2.begin(), Op{}) - w2.begin();
+        auto r3 = std::adjacent_difference(a.begin(), a.end(), w3.begin()) - w3.begin();
+        auto r4 = std::adjacent_difference(a.begin(), a.end(), w4.begin(), Op{}) - w4.begin();
+        std::partial_sum(a.begin(), a.end(), n1.begin(), Op{}); // wide op, narrow destination
+        s += "psum " + num(r1) + tvec(w1.data(), L) + " psum_op " + num(r2) + tvec(w2.data(), L) + " adiff " + num(r3) + tvec(w3.data(), L) + " adiff_op " + num(r4) + tvec(w4.data(), L) + " psum_narrow" + tvec(n1.data(), L);
+        s += " acc " + tnum(std::accumulate(a.begin(), a.end(), Wide{7})) + "," + tnum(std::accumulate(a.begin(), a.end(), In{7})) + "," + tnum(std::accumulate(a.begin(), a.end(), Wide{7}, Op{})) + "," + tnum(std::accumulate(a.begin(), a.end(), In{7}, Op{}));
+        s += " inner " + tnum(std::inner_product(a.begin(), a.end(), b.begin(), Wide{7})) + "," + tnum(std::inner_product(a.begin(), a.end(), b.begin(), In{7}));
+        if constexpr (!flt) { // reductions in unspecified order: exact (modular) arithmetic only
+            s += " reduce " + tnum(std::reduce(a.begin(), a.end())) + "," + tnum(std::reduce(a.begin(), a.end(), In{7}));
+            s += " treduce " + tnum(std::transform_reduce(a.begin(), a.end(), b.begin(), In{7}));
+            if constexpr (wide_reduce) { s += " wide " + tnum(std::reduce(a.begin(), a.end(), Wide{7})) + "," + tnum(std::transform_reduce(a.begin(), a.end(), b.begin(), Wide{7})); }
+            std::iota(io.begin(), io.end(), iota_start<In>());                     // In buffer, In value (wraps while counting)
+            std::iota(iw.begin(), iw.end(), iota_start<In>());                     // wide buffer, narrow counter
+            s += " iota" + tvec(io.data(), L) + tvec(iw.data(), L);
+            std::iota(io.begin(), io.end(), static_cast<Wide>(iota_start<In>())); // narrow buffer, wide counter
+            s += tvec(io.data(), L);
+        }
+    }
+    // ---------------- etl
+    {
+        NBuf<In> A("a", a, c.pad, padn(c));
+        NBuf<In> B("b", b, c.pad, padn(c));
+        NBuf<Wide> W1("w1", std::vector<Wide>(sz, Wide{5}), c.pad, padn(c));
+        NBuf<Wide> W2("w2", std::vector<Wide>(sz, Wide{5}), c.pad, padn(c));
+        NBuf<Wide> W3("w3", std::vector<Wide>(sz, Wide{5}), c.pad, padn(c));
+        NBuf<Wide> W4("w4", std::vector<Wide>(sz, Wide{5}), c.pad, padn(c));
+        NBuf<In> N1("n1", std::vector<In>(sz, In{5}), c.pad, padn(c));
+        NBuf<In> IO("io", std::vector<In>(sz, In{5}), c.pad, padn(c));
+        NBuf<Wide> IW("iw", std::vector<Wide>(sz, Wide{5}), c.pad, padn(c));
+        Scope sc;
+        auto r1 = noff(W1, etl::partial_sum(nat<K>(A, 0), nat<K>(A, L), noat<K>(W1, 0)));
+        auto r2 = noff(W2, etl::partial_sum(nat<K>(A, 0), nat<K>(A, L), noat<K>(W2, 0), Op{}));
+        auto r3 = noff(W3, etl::adjacent_difference(nat<K>(A, 0), nat<K>(A, L), noat<K>(W3, 0)));
+        auto r4 = noff(W4, etl::adjacent_difference(nat<K>(A, 0), nat<K>(A, L), noat<K>(W4, 0), Op{}));
+        etl::partial_sum(nat<K>(A, 0), nat<K>(A, L), noat<K>(N1, 0), Op{});
+        e += "psum " + num(r1) + tvec(W1.b(), L) + " psum_op " + num(r2) + tvec(W2.b(), L) + " adiff " + num(r3) + tvec(W3.b(), L) + " adiff_op " + num(r4) + tvec(W4.b(), L) + " psum_narrow" + tvec(N1.b(), L);
+        auto a1 = etl::accumulate(nat<K>(A, 0), nat<K>(A, L), Wide{7});
+        auto a2 = etl::accumulate(nat<K>(A, 0), nat<K>(A, L), In{7});
+        auto a3 = etl::accumulate(nat<K>(A, 0), nat<K>(A, L), Wide{7}, Op{});
+        auto a4 = etl::accumulate(nat<K>(A, 0), nat<K>(A, L), In{7}, Op{});
+        static_assert(std::is_same_v<decltype(a2), In> && std::is_same_v<decltype(a3), Wide>, "accumulate returns the init type");
+        e += " acc " + tnum(a1) + "," + tnum(a2) + "," + tnum(a3) + "," + tnum(a4);
+        auto i1 = etl::inner_product(nat<K>(A, 0), nat<K>(A, L), nat<K>(B, 0), Wide{7});
+        auto i2 = etl::inner_product(nat<K>(A, 0), nat<K>(A, L), nat<K>(B, 0), In{7});
+        e += " inner " + tnum(i1) + "," + tnum(i2);
+        if constexpr (!flt) {
+            auto d1 = etl::reduce(nat<K>(A, 0), nat<K>(A, L));
+            auto d2 = etl::reduce(nat<K>(A, 0), nat<K>(A, L), Wide{7});
+            auto d3 = etl::reduce(nat<K>(A, 0), nat<K>(A, L), In{7});
+            static_assert(std::is_same_v<decltype(d1), In>, "reduce(first, last) returns the value type");
+            e += " reduce " + tnum(d1) + "," + tnum(d3);
+            auto t1 = etl::transform_reduce(nat<K>(A, 0), nat<K>(A, L), nat<K>(B, 0), Wide{7});
+            auto t2 = etl::transform_reduce(nat<K>(A, 0), nat<K>(A, L), nat<K>(B, 0), In{7});
+            e += " treduce " + tnum(t2);
+            if constexpr (wide_reduce) { e += " wide " + tnum(d2) + "," + tnum(t1); }
+            etl::iota(IO.b(), IO.e(), iota_start<In>());
+            etl::iota(IW.b(), IW.e(), iota_start<In>());
+            e += " iota" + tvec(IO.b(), L) + tvec(IW.b(), L);
+            etl::iota(IO.b(), IO.e(), static_cast<Wide>(iota_start<In>()));
+            e += tvec(IO.b(), L);
+        }
+    }
+    return nverdict(e, s);
+}
+template <typename K>
+auto a_num_u8_int(Case const& c) -> std::string { return typed_numeric<K, std::uint8_t, int>(c); }
+template <typename K>
+auto a_num_i8_int(Case const& c) -> std::string { return typed_numeric<K, std::int8_t, int>(c); }
+template <typename K>
+auto a_num_i16_long(Case const& c) -> std::string { return typed_numeric<K, std::int16_t, long>(c); }
+template <typename K>
+auto a_num_u16_unsigned(Case const& c) -> std::string { return typed_numeric<K, std::uint16_t, unsigned>(c); }
+template <typename K>
+auto a_num_u32_u64(Case const& c) -> std::string { return typed_numeric<K, std::uint32_t, std::uint64_t>(c); }
+template <typename K>
+auto a_num_float_double(Case const& c) -> std::string { return typed_numeric<K, float, double>(c); }
+
 // ------------------------------------------------------------------ next / prev / advance / distance
 // One case = (length, start position m); every admissible n is swept inside.  Contents are irrelevant -> only all-zero a.
 template <typename K>
@@ -569,6 +745,13 @@ auto table() -> std::vector<Entry> const&
         C06_REG(a_partial_sum, "partial_sum", 0, KF),
         C06_REG(a_iota, "iota", D_VAL, KP),
         C06_REG(a_iota, "iota", D_VAL, KF),
+        C06_REG(a_num_u8_int, "numeric_uint8_into_int", 0, KP),
+        C06_REG(a_num_u8_int, "numeric_uint8_into_int", 0, KI),
+        C06_REG(a_num_i8_int, "numeric_int8_into_int", 0, KP),
+        C06_REG(a_num_i16_long, "numeric_int16_into_long", 0, KP),
+        C06_REG(a_num_u16_unsigned, "numeric_uint16_into_unsigned", 0, KP),
+        C06_REG(a_num_u32_u64, "numeric_uint32_into_uint64", 0, KP),
+        C06_REG(a_num_float_double, "numeric_float_into_double", 0, KP),
         C06_REG(a_iter_helpers, "next_prev_advance_distance", D_MID, KP),
         C06_REG(a_iter_helpers, "next_prev_advance_distance", D_MID, KI),
         C06_REG(a_iter_helpers, "next_prev_advance_distance", D_MID, KF),
